@@ -105,7 +105,14 @@ def fieldKey (tag : Bytes) : Bytes :=
   let t := if tag.length ≥ suf.length && tag.drop (tag.length - suf.length) == suf then tag.take (tag.length - suf.length) else tag
   upperAscii t
 
-def decNat (n : Nat) : Bytes := (toString n).toUTF8.toList
+def decFuel : Nat → Nat → Bytes → Bytes
+  | 0, _, acc => acc
+  | f + 1, n, acc =>
+    let acc' := UInt8.ofNat (48 + n % 10) :: acc
+    if n / 10 = 0 then acc' else decFuel f (n / 10) acc'
+
+/-- `strconv.FormatInt(int64(i), 10)` for list indices -/
+def decNat (n : Nat) : Bytes := decFuel 20 n []
 
 /-- the test double's `UnmarshalEnv`: values starting with "ERR" are rejected, otherwise the value becomes the
 record "<prefix=value>" of the call (the real parameter types set their value from the text the same way) -/
